@@ -8,14 +8,14 @@ One ndjson line per OUTERMOST entry-point call ("run") is appended to the file n
    list_inputs|list_configuration|none, "outdir": <abs real path>|null, "cwd":, "ovw": bool, "fm": int|null, "fm_last": bool, "pps": [class names],
    "custom_pp": bool, "argv": [...]|null, "exc": class name|null,
    "steps": [{"k": mkdir|open|copy|chmod|remove|rename|rmdir|spawn, "p": abs path, "q": abs path (rename target)|null, "m": int, "ex": bool,
-              "om": int, "tmp": bool}],
+              "om": int, "pe": bool, "tmp": bool}],
    "calls": [{"g": dsdl|support, "dry": bool, "ok": bool, "ret": [abs paths]|null, "s0": int, "s1": int}],
    "printed": [strings]|null}
 
 Paths are made absolute against the cwd at the time of the step and symbolic links are resolved (`os.path.realpath`), so that "inside the output
 directory" is the physical truth; the TLA+ T-layer still normalises `..` itself.  `ex`: the path existed when the step began, `om`: its permission
-bits then (0 if it did not exist).  `tmp`: the path lies below a temporary file/directory announced by a `tempfile.mkstemp` / `tempfile.mkdtemp`
-audit event inside the same run, or below `tempfile.gettempdir()` while an external program is spawned.  An observer never changes the run:
+bits then (0 if it did not exist), `pe`: its parent directory existed (an os.mkdir without it fails).  `tmp`: the path lies below a temporary
+file/directory announced by a `tempfile.mkstemp` / `tempfile.mkdtemp` audit event inside the same run.  An observer never changes the run:
 every hook body is wrapped in try/except and does nothing when no run is open.
 """
 import functools
@@ -100,7 +100,7 @@ def _step(kind, p, m=0, q=None):
         except OSError:
             om = 0
     run["steps"].append({"k": kind, "p": ap, "q": _abs(q) if q is not None else None, "m": int(m), "ex": bool(ex), "om": om,
-                         "tmp": _is_tmp(ap)})
+                         "pe": os.path.isdir(os.path.dirname(ap)), "tmp": _is_tmp(ap)})
 
 
 def _fd(x):
@@ -121,7 +121,7 @@ def _hook(ev, args):
             if isinstance(p, int) or not isinstance(flags, int) or not (flags & _WR):
                 return
             ap = _abs(p)
-            if ap == run.get("_trace") or ap.startswith("/dev/") or ap.startswith("/proc/"):
+            if ap == run.get("_trace") or (ap.startswith("/dev/") and not ap.startswith("/dev/shm/")) or ap.startswith("/proc/"):
                 return
             pend = run.get("_copy")
             if pend is not None and pend == ap:  # the open(dst, "wb") that belongs to the shutil.copyfile step just recorded
